@@ -754,6 +754,12 @@ func runC07(ctx *Ctx) *Result {
 	if res.Broken == "" {
 		c07SameGStage(ctx, res)
 	}
+	if res.Broken == "" {
+		c07OtherTreeStage(ctx, res, NewRng(ctx.Seed^0x07e1))
+	}
+	if res.Broken == "" {
+		c07GlobalsAuditStage(ctx, res)
+	}
 	res.DistinctNontrivial = len(nontrivial)
 	res.Rule = fmt.Sprintf("a case = (generated tree, cwd, argv); every case is run %d times in fresh processes and %d times inside child processes that run a seeded permutation of the cases of %d trees each (fresh G per run), all outputs compared byte for byte with the first fresh run. Non-trivial = a case for which the shim's probe saw at least 2 of the long-lived audited maps (master sites, tools, doc/CHANGES entries, user-defined variables) with >= 3 keys; the per-package maps (PLIST files/dirs, includes, options, SUBST, scopes) have >= 3 keys in every Rich tree by construction. Go draws a fresh random start for every `range`; for a loop over >= 3 keys whose order reaches the output, k independent runs all agree with probability <= (1/3)^(k-1) (only the first key matters) resp. (1/6)^(k-1) (the whole order of 3 keys matters): with %d runs per case that is <= %.1e per case, and every audited loop is reached by dozens of cases.",
 		p.nFresh, p.nSeq, p.batch, p.nFresh+p.nSeq, pow(1.0/3, p.nFresh+p.nSeq-1))
@@ -1105,6 +1111,8 @@ func replayC07(ctx *Ctx, rep map[string]any) *Result {
 		}
 	case "same-g":
 		return replayC07SameG(ctx, rep)
+	case "other-tree":
+		return replayC07OtherTree(ctx, rep)
 	case "history":
 		var cases []c07Case
 		var idx []int
